@@ -136,6 +136,107 @@ def _dump(args):
     return cfile, decls, None
 
 
+# ---------------------------------------------------------------- local names
+# Rules name the constructs they check by the local names today's source uses (dtsign, last_full_dt, i_enc ...). A pure
+# renaming of locals/parameters leaves the program unchanged, so it must leave every verdict unchanged: a function whose
+# body equals the reference body up to a consistent renaming of its own locals and parameters (alpha-equivalence, decided on
+# a name-free serialisation of the AST) is analysed under the reference names. Functions that differ in anything else are
+# analysed as they are. The reference (refnames.json) is regenerated with tools/mkrefnames.py.
+REFNAMES_FILE = os.path.join(os.path.dirname(os.path.abspath(__file__)), 'refnames.json')
+_refnames = None
+
+
+def _local_decls(fn):
+    out = []
+    stack = [fn]
+    while stack:
+        x = stack.pop()
+        if isinstance(x, dict):
+            if x.get('kind') in ('VarDecl', 'ParmVarDecl') and x.get('id') and x is not fn:
+                out.append(x)
+            inner = x.get('inner')
+            if inner:
+                stack.extend(reversed(inner))
+    return out
+
+
+def _nameless_type(t):
+    q = t.get('desugaredQualType') or t.get('qualType') or ''
+    if 'typeof' in q:
+        q = re.sub(r'typeof\s*\([^)]*\)', 'typeof(.)', q)
+    return q
+
+
+def skeleton(fn):
+    """(hash of the name-free serialisation of the function, [local names in order of declaration])"""
+    import hashlib
+    decls = _local_decls(fn)
+    index = {d['id']: i for i, d in enumerate(decls)}
+    h = hashlib.sha1()
+
+    def ser(n):
+        k = n.get('kind')
+        h.update(('(' + str(k)).encode())
+        for key in ('opcode', 'value', 'castKind', 'isArrow', 'isPostfix', 'storageClass'):
+            if key in n:
+                h.update(('|%s=%s' % (key, n[key])).encode())
+        if k in ('VarDecl', 'ParmVarDecl') and n.get('id') in index:
+            h.update(('|L%d:%s' % (index[n['id']], _nameless_type(n.get('type') or {}))).encode())
+        elif k == 'MemberExpr':
+            h.update(('|.%s' % n.get('name')).encode())
+        elif k == 'DeclRefExpr':
+            rd = n.get('referencedDecl') or {}
+            if rd.get('id') in index:
+                h.update(('|L%d' % index[rd['id']]).encode())
+            else:
+                h.update(('|G%s' % rd.get('name')).encode())
+        elif k == 'UnaryExprOrTypeTraitExpr':
+            h.update(('|%s:%s' % (n.get('name'), _nameless_type(n.get('argType') or {}))).encode())
+        elif k in ('LabelStmt', 'GotoStmt', 'StringLiteral'):
+            h.update(('|%s' % (n.get('name') or n.get('value'))).encode())
+        for c in n.get('inner', []) or []:
+            if isinstance(c, dict) and c.get('kind') not in ('FullComment', 'ParagraphComment', 'TextComment'):
+                ser(c)
+        h.update(b')')
+    ser(fn)
+    return h.hexdigest(), [d.get('name') for d in decls]
+
+
+def alpha_normalise(tu):
+    global _refnames
+    if _refnames is None:
+        try:
+            import json
+            _refnames = json.load(open(REFNAMES_FILE))
+        except (OSError, ValueError):
+            _refnames = {}
+    ref = _refnames.get(tu.cfile) or {}
+    if not ref:
+        return
+    for name, fn in tu.funcs.items():
+        r = ref.get(name)
+        if not r or basename(fn.get('_locfile') or fn.get('_file')) != tu.cfile:
+            continue
+        hsh, names = skeleton(fn)
+        if hsh != r['skeleton'] or names == r['names'] or len(names) != len(r['names']):
+            continue
+        decls = _local_decls(fn)
+        new = {d['id']: nm for d, nm in zip(decls, r['names'])}
+        for d in decls:
+            d['name'] = new[d['id']]
+        stack = [fn]
+        while stack:
+            x = stack.pop()
+            if isinstance(x, dict):
+                rd = x.get('referencedDecl')
+                if isinstance(rd, dict) and rd.get('id') in new:
+                    rd['name'] = new[rd['id']]
+                inner = x.get('inner')
+                if inner:
+                    stack.extend(inner)
+        fn['_alpha_renamed'] = True
+
+
 class TU:
     def __init__(self, cfile, decls):
         self.cfile = cfile
@@ -173,6 +274,8 @@ class TU:
                 self._enum(n)
             elif k == 'RecordDecl' and n.get('completeDefinition') and n.get('name'):
                 self.records[n['name']] = n
+        if os.environ.get('REBVERIF_RAWNAMES') != '1':
+            alpha_normalise(self)
 
     def _enum(self, n):
         vals = []
